@@ -226,6 +226,7 @@ def check_native(prop, spec, tier, seed, replay=None):
     # ---- 3. confirm failures through the plain replay path
     rd = rundir(prop)
     seen = set()
+    todo = []
     for case, msg, w in res.fails:
         if case in seen:
             continue
@@ -234,12 +235,24 @@ def check_native(prop, spec, tier, seed, replay=None):
         with open(path, 'w') as f:
             json.dump({'property': prop, 'case': case, 'message': msg, 'seed': int(seed), 'worker': w, 'tier': tier}, f, indent=1)
             f.write('\n')
-        outcomes = [run_replay(exe, path, extra=extra_args)[0] for _ in range(3)]
-        if all(o == 'fail' for o in outcomes):
-            violations.append(path)
-        else:
-            res.notes.append('failure of worker %d did not reproduce 3x through the replay path (%s): counted inconclusive' % (w, outcomes))
-            res.inconclusive += 1
+        todo.append((path, w))
+
+    def confirm(pw):
+        # stop at the first replay that does not fail
+        out = []
+        for _ in range(3):
+            out.append(run_replay(exe, pw[0], extra=extra_args)[0])
+            if out[-1] != 'fail':
+                break
+        return out
+    from concurrent.futures import ThreadPoolExecutor
+    with ThreadPoolExecutor(8) as ex:
+        for (path, w), outcomes in zip(todo, ex.map(confirm, todo)):
+            if len(outcomes) == 3 and all(o == 'fail' for o in outcomes):
+                violations.append(path)
+            else:
+                res.notes.append('failure of worker %d did not reproduce 3x through the replay path (%s): counted inconclusive' % (w, outcomes))
+                res.inconclusive += 1
 
     # ---- 4. coverage-guided campaign (libFuzzer) with the same oracle, where a target exists
     fuzz_info = None
